@@ -65,7 +65,8 @@ class PackedEval:
         v = None
         for _ in range(10):
             an = Analyzer(self.facts, no_events, inline=lambda fid: False)
-            env = {"$ver": ver, "$guards": {k: g for k, g in guards.items() if g is not None}, "$tsub": dict(tsub)}
+            env = {"$ver": ver, "$guards": {k: g for k, g in guards.items() if g is not None}, "$tsub": dict(tsub),
+                   "$concrete": not any("$" in str(t_) for t_ in tsub.values())}
             for p in fn["params"]:
                 if p.get("pat") and p["pat"].get("k") == "Bind":
                     env[p["pat"]["v"]] = ("ver",)
@@ -84,6 +85,16 @@ class PackedEval:
             res = v[1]
         elif v is not None and v[0] == "packed" and v[1]:
             res = self.decide(subst_ty(v[1], tsub), ver, stack + (type_string,))
+        elif v is not None and v[0] == "pand":
+            rs = []
+            for it in v[1]:
+                if it[0] == "bool":
+                    rs.append(it[1])
+                elif it[0] == "packed" and it[1]:
+                    rs.append(self.decide(subst_ty(it[1], tsub), ver, stack + (type_string,)))
+                else:
+                    rs.append(None)
+            res = False if any(r is False for r in rs) else (True if all(r is True for r in rs) else None)
         elif v is not None and v[0] == "guard" and v[1][0] == "Packed":
             r = self.decide(v[1][1], ver, stack + (type_string,))
             res = None if r is None else (r if v[2] else not r)
